@@ -11,6 +11,7 @@ import (
 	"math/rand"
 	"os"
 	"sort"
+	"sync"
 
 	"github.com/advancedclimatesystems/gonnx"
 	"gorgonia.org/tensor"
@@ -352,4 +353,122 @@ func identity(n int) []int {
 		p[i] = i + 1
 	}
 	return p
+}
+
+// ---------------------------------------------------------------------------------------------------------------------
+// C17 (B): free-running goroutines on shared Models, recorded for Trace_Conc.tla. Built with -race by bin/check: a data race
+// makes the process exit with code 66 (GORACE=halt_on_error=1 exitcode=66), which the stage reports as a violation.
+
+func init() { recorders["conc"] = recordConc }
+
+func digestOf(out gonnx.Tensors, names []string) string {
+	s := ""
+	for _, n := range names {
+		s += n + "=" + TakeSnapshotValues(out[n]).String() + TakeSnapshotValues(out[n]).Bits + ";"
+	}
+	h := fnv64(s)
+	return fmt.Sprintf("%016x", h)
+}
+
+func fnv64(s string) uint64 {
+	var h uint64 = 14695981039346656037
+	for i := 0; i < len(s); i++ {
+		h ^= uint64(s[i])
+		h *= 1099511628211
+	}
+	return h
+}
+
+func recordConc(rec *recorder, rng *rand.Rand, trials int, repo string) int {
+	var mu sync.Mutex
+	emit := func(e map[string]interface{}) {
+		mu.Lock()
+		rec.emit(e)
+		mu.Unlock()
+	}
+	for _, name := range []string{"mlp", "gru", "ndm", "scaler"} {
+		sm, err := loadSampleModel(repo, name)
+		if err != nil {
+			fmt.Fprintln(os.Stderr, "record conc:", err)
+			return 2
+		}
+		modelBytes, _ := os.ReadFile(repo + "/sample_models/onnx_models/" + name + ".onnx")
+		// a pool of inputs with their sequential baseline
+		nKeys := 6
+		pool := make([][]map[string][]float32, nKeys)
+		for k := range pool {
+			n := 1 + rng.Intn(3)
+			pool[k] = make([]map[string][]float32, n)
+			for i := range pool[k] {
+				pool[k][i] = map[string][]float32{}
+				for _, in := range sm.inNames {
+					d := make([]float32, sm.sampleSize(in))
+					for j := range d {
+						d[j] = float32(rng.Intn(65)-32) / 16
+					}
+					pool[k][i][in] = d
+				}
+			}
+			out, err := sm.model.Run(sm.stack(pool[k]))
+			if err != nil {
+				emit(map[string]interface{}{"ev": "Failed", "model": name, "why": err.Error(), "g": 0, "seq": 0, "key": k + 1, "digest": ""})
+				continue
+			}
+			emit(map[string]interface{}{"ev": "Baseline", "model": name, "g": 0, "seq": 0, "key": k + 1, "digest": digestOf(out, sm.outNames)})
+		}
+		for _, G := range []int{2, 4, 8, 16} {
+			if trials < 10 && G > 4 {
+				continue
+			}
+			var wg sync.WaitGroup
+			stop := make(chan struct{})
+			// loading further models concurrently must not disturb the Runs
+			wg.Add(1)
+			go func() {
+				defer wg.Done()
+				for {
+					select {
+					case <-stop:
+						return
+					default:
+					}
+					if _, err := gonnx.NewModelFromBytes(modelBytes); err != nil {
+						emit(map[string]interface{}{"ev": "Failed", "model": name, "why": "concurrent load: " + err.Error(), "g": 0, "seq": 0, "key": 0, "digest": ""})
+						return
+					}
+				}
+			}()
+			var rw sync.WaitGroup
+			for gi := 1; gi <= G; gi++ {
+				seed := rng.Int63()
+				rw.Add(1)
+				go func(gi int, seed int64) {
+					defer rw.Done()
+					lr := rand.New(rand.NewSource(seed))
+					for seq := 1; seq <= 1+trials/4; seq++ {
+						k := lr.Intn(nKeys)
+						// every goroutine builds its own input tensors
+						var out gonnx.Tensors
+						var err error
+						o := guard(func() Observation {
+							out, err = sm.model.Run(sm.stack(pool[k]))
+							if err != nil {
+								return observeErr(err)
+							}
+							return Observation{Kind: "value"}
+						})
+						if o.Kind != "value" {
+							emit(map[string]interface{}{"ev": "Failed", "model": name, "why": o.Short(), "g": gi + 100*G, "seq": seq, "key": k + 1, "digest": ""})
+							continue
+						}
+						emit(map[string]interface{}{"ev": "RunEnd", "model": name, "g": gi + 100*G, "seq": seq, "key": k + 1, "digest": digestOf(out, sm.outNames)})
+					}
+				}(gi, seed)
+			}
+			rw.Wait()
+			close(stop)
+			wg.Wait()
+		}
+	}
+	return 0
 }
